@@ -64,6 +64,8 @@ def _worker(modname, conn, logpath):
     except Exception:
         pass
     mod = importlib.import_module(modname)
+    cov = _LineCov()
+    cov.install()
     while True:
         try:
             msg = conn.recv()
@@ -78,9 +80,63 @@ def _worker(modname, conn, logpath):
             res.setdefault("counters", {})
             if isinstance(unit, tuple) and unit and isinstance(unit[0], str):
                 res["counters"]["cpu_s:" + unit[0]] = res["counters"].get("cpu_s:" + unit[0], 0) + round(time.time() - t0, 2)
+            res["_lines"] = cov.drain()
             conn.send((i, "ok", res))
         except BaseException as e:  # noqa
             conn.send((i, "err", f"{type(e).__name__}: {e}\n{traceback.format_exc()[-3000:]}"))
+
+
+class _LineCov:
+    """which lines of the biobalm package a worker has executed (sys.monitoring LINE events, each location reports once)"""
+
+    TOOL = 4
+
+    def __init__(self):
+        self.new = set()
+        self.root = None
+
+    def install(self):
+        try:
+            import biobalm
+            mon = sys.monitoring
+            self.root = os.path.dirname(os.path.abspath(biobalm.__file__)) + os.sep
+            mon.use_tool_id(self.TOOL, "bbmc-linecov")
+            mon.register_callback(self.TOOL, mon.events.LINE, self._cb)
+            mon.set_events(self.TOOL, mon.events.LINE)
+        except Exception:
+            self.root = None
+
+    def _cb(self, code, line):
+        fn = code.co_filename
+        if self.root and fn.startswith(self.root):
+            self.new.add((fn[len(self.root):], line))
+        return sys.monitoring.DISABLE
+
+    def drain(self):
+        out, self.new = self.new, set()
+        return out
+
+
+def anchor_coverage(pid, lines):
+    """for every 'file:from-to' range named in the property's anchors: how many lines of that range were executed"""
+    import re
+    out = {}
+    try:
+        props = [json.loads(l) for l in open(os.path.join(ROOT, "properties.jsonl"))]
+        prop = next(p for p in props if p["id"] == pid)
+    except Exception:
+        return out
+    byfile = collections.defaultdict(set)
+    for f, ln in lines:
+        byfile[f].add(ln)
+    for m in prop["anchors"].get("mechanism", []):
+        for f, a, b in re.findall(r"biobalm/([\w/]+\.py):(\d+)(?:-(\d+))?", m.get("where", "")):
+            a = int(a)
+            b = int(b) if b else a
+            # line numbers refer to the pinned tree; fix commits shifted some code by a few lines
+            hit = len([x for x in byfile.get(f, ()) if a - 5 <= x <= b + 40])
+            out[f"{f}:{a}-{b}"] = hit
+    return out
 
 
 class Pool:
@@ -310,12 +366,13 @@ def run_check(mod, tier, seed, jobs, logpath):
     agg = {
         "evals": 0, "states": 0, "transitions": 0, "traces": 0,
         "nontrivial": set(), "outcomes": set(), "samples": [], "hangs": [], "errors": [],
-        "violations": [], "counters": collections.Counter(), "caps": [],
+        "violations": [], "counters": collections.Counter(), "caps": [], "lines": set(),
     }
 
     def on_result(i, st, payload):
         if st == "ok":
             r = payload
+            agg["lines"].update(r.get("_lines", ()))
             agg["evals"] += r.get("evals", 0)
             agg["states"] += r.get("states", 0)
             agg["transitions"] += r.get("transitions", 0)
@@ -410,6 +467,8 @@ def run_check(mod, tier, seed, jobs, logpath):
         "caps_hit": agg["caps"][:20],
         "violations_by_oracle": {f"{o}|{s}": 1 for (o, s) in groups},
         "units": len(units),
+        "biobalm_lines_executed": len(agg["lines"]),
+        "anchored_mechanism_lines_executed": anchor_coverage(pid, agg["lines"]),
     }
     ev = {
         "property_id": pid, "tier": tier, "seed": seed, "level": mod.LEVEL, "coverage": cov,
@@ -427,6 +486,9 @@ def run_check(mod, tier, seed, jobs, logpath):
           f"hangs={len(agg['hangs'])} violations={len(agg['violations'])} wall={wall:.1f}s")
     if agg["counters"]:
         print(f"[{pid}] counters:", dict(sorted(agg["counters"].items())))
+    unreached = [k for k, v in cov["anchored_mechanism_lines_executed"].items() if v == 0]
+    print(f"[{pid}] anchored mechanism ranges reached: {len(cov['anchored_mechanism_lines_executed']) - len(unreached)}/"
+          f"{len(cov['anchored_mechanism_lines_executed'])}" + (f"; not reached: {unreached}" if unreached else ""))
     if diverged:
         for v, path, out in diverged:
             print(f"HARNESS-ERROR property={pid} unconfirmed oracle={v['oracle']} replayfile={path}\n{out}")
